@@ -345,7 +345,24 @@ pub struct Fixture {
     pub deps: Vec<String>,
     #[serde(default)]
     pub awaits: u32,
+    /// how the cache key is built from the driver's key number (signature shape)
+    #[serde(default = "default_keyfmt")]
+    pub keyfmt: String,
     pub cfg: Cfg,
+}
+
+fn default_keyfmt() -> String {
+    "{k}".to_string()
+}
+
+impl Fixture {
+    /// The cache key the wrapper builds when the driver calls this fixture with key number k.
+    pub fn key_of(&self, k: u32) -> String {
+        self.keyfmt
+            .replace("{k}", &k.to_string())
+            .replace("{e}", if k % 2 == 0 { "true" } else { "false" })
+            .replace("{n}", &(k as i64 + 100).to_string())
+    }
 }
 
 pub fn load_fixtures() -> HashMap<String, Fixture> {
